@@ -323,6 +323,56 @@ def o7b(h, st):
     h.done()
 
 
+@contract("C01", "O7c.Backend._statevector_to_frequencies.sampled.many_shots", targets=[(BK, "Backend._statevector_to_frequencies")], level="S",
+          structures=lambda tier: [{"shots": s, "order": o} for s in ((10 ** 6 + 7, 10 ** 7, 10 ** 7 + 3, 2 * 10 ** 7 + 5) if tier == "quick" else
+                                                                    (10 ** 6, 10 ** 6 + 7, 2 * 10 ** 6, 3250000, 10 ** 7 - 1, 10 ** 7, 10 ** 7 + 3, 2 * 10 ** 7, 2 * 10 ** 7 + 5))
+                                   for o in (("lsq_first",) if tier == "quick" else ("lsq_first", "msq_first"))])
+def o7c(h, st):
+    """sampled mode with MANY shots (however the code cuts the request into chunks, the sampler OPAQUE): the sampler is asked for n_shots samples in total, and
+    every outcome is reported with frequency (number of times it was drawn over ALL requests) / n_shots, so the reported frequencies sum to one"""
+    import numpy as np
+    from tangelo.linq.target.target_cirq import CirqSimulator
+    if not h.symbolic:
+        h.check("native: skipped (sampler stub only in the interpreter)", True)
+        h.done()
+        return
+    n, sup, shots = 2, (0, 1, 3), st["shots"]
+    sim = CirqSimulator.__new__(CirqSimulator)
+    sim.statevector_order = st["order"]
+    sim.freq_threshold = 1e-10
+    sim.n_shots = shots
+    w = np.array([1.0, 2.0, 5.0])
+    vec = np.zeros(2 ** n, dtype=complex)
+    for j, i in enumerate(sup):
+        vec[i] = np.sqrt(w[j] / w.sum())
+    drawn = {}
+
+    def draw(xk, pk, size, k):
+        # request number k: the outcome of weight 2 is drawn min(size, 3 + k) times, the outcome of weight 5 min(rest, 11 + 2k) times, the outcome of weight 1 otherwise
+        by_w = {int(round(pk[j] * w.sum())): int(xk[j]) for j in range(len(xk))}
+        c2 = min(size, 3 + k)
+        c5 = min(size - c2, 11 + 2 * k)
+        c1 = size - c2 - c5
+        for wt, c in ((1, c1), (2, c2), (5, c5)):
+            drawn[wt] = drawn.get(wt, 0) + c
+        out = np.empty(size, dtype=np.int64)
+        out[:c2] = by_w[2]
+        out[c2:c2 + c5] = by_w[5]
+        out[c2 + c5:] = by_w[1]
+        return out
+    with opaque_sampler(draw) as calls:
+        fr = h.call(BK, "Backend._statevector_to_frequencies", sim, vec)
+    h.check("sampler asked for n_shots samples in total", sum(c[2] for c in calls) == shots, detail=str([c[2] for c in calls]))
+    exp = {}
+    for j, i in enumerate(sup):
+        key = "".join(str((i >> (n - 1 - q)) & 1) if st["order"] == "lsq_first" else str((i >> q) & 1) for q in range(n))
+        if drawn.get(int(w[j]), 0):
+            exp[key] = drawn[int(w[j])] / shots
+    h.check("every outcome reported with (times drawn over all requests) / n_shots", set(fr) == set(exp) and all(abs(fr[k] - exp[k]) < 1e-12 for k in exp), detail=f"{fr} vs {exp}")
+    h.check("reported frequencies sum to one", abs(sum(fr.values()) - 1) < 1e-9, detail=str(sum(fr.values())))
+    h.done()
+
+
 # O8 advertised statevector order + bitstring convention ------------------------------------------------------------------
 
 def o8_structures(tier):
